@@ -62,6 +62,12 @@ def make_setup(case):
     cp = replicated and rnd.random() < 0.5
     pdt = rnd.choice(["float32", "float64", "float64"])
     fdt = "float32" if pdt == "float32" else rnd.choice(["float32", "float64"])
+    # every 10th case pair (one per mode) is forced into the mixed-dtype class below
+    force_mixed = isinstance(case["seed"][-1], int) and case["seed"][-1] % 10 in (3, 4)
+    if force_mixed:
+        pdt = fdt = "float32"
+        if replicated and rnd.random() < 0.6:
+            comm = "DEFAULT"
     gs = rnd.choice([1e-2, 1.0, 1.0])
     cfg = G.rand_config(rnd, grad_scale=gs, allow_iterative=False, dtype_pair=(pdt, fdt), well_conditioned=True, max_dim_choices=(2, 3, 4, 5, 1024))
     from .c06 import _tame
@@ -86,7 +92,16 @@ def make_setup(case):
     T = rnd.randint(4, 8)
     pk, pres = G.rand_presence(rnd, len(shapes), T, kind=rnd.choice(["all", "all", "never_one", "toggle", "random", "bursts", "all_absent_steps"]))
     exact = (not replicated) or (COMM[comm] == "float32" and pdt == "float32")
-    return {"mode": mode, "R": R, "S": Sn, "G": Gs, "comm": comm, "communicate_params": cp, "cfg": cfg, "shapes": shapes, "ranges": ranges, "cut_kind": cut_kind, "T": T, "presence_kind": pk, "presence": pres, "grad_scale": gs, "exact": exact, "grad_kind": rnd.choice(["dense", "dense", "sparse"])}
+    pdts = None
+    if pdt == "float32" and (force_mixed or rnd.random() < 0.3):
+        # one param group holding parameters of different dtypes (bfloat16 weights next to float32 ones): block dtypes,
+        # buffer slots and the communication dtype are per group, the arithmetic per block
+        pdts = [rnd.choice(["bfloat16", "float32"]) for _ in shapes]
+        pdts[rnd.randrange(len(shapes))] = "bfloat16"
+        pdts[(pdts.index("bfloat16") + 1) % len(shapes)] = "float32"
+        if len(set(pdts)) < 2:
+            pdts = None
+    return {"pdts": pdts, "mode": mode, "R": R, "S": Sn, "G": Gs, "comm": comm, "communicate_params": cp, "cfg": cfg, "shapes": shapes, "ranges": ranges, "cut_kind": cut_kind, "T": T, "presence_kind": pk, "presence": pres, "grad_scale": gs, "exact": exact, "grad_kind": rnd.choice(["dense", "dense", "sparse"])}
 
 
 def _flat_ranges(shapes, Sn):
@@ -136,7 +151,7 @@ def _local_shape(sh, Sn, s):
 
 
 def _full_grad(torch, G, S, seed, t, j):
-    dt = getattr(torch, S["cfg"]["param_dtype"])
+    dt = getattr(torch, S["pdts"][j] if S.get("pdts") else S["cfg"]["param_dtype"])
     return G.grad_for(torch, tgen(*seed, "g", t, j), S["shapes"][j], dt, S["grad_kind"], S["grad_scale"] * (1 + j))
 
 
@@ -151,6 +166,8 @@ def rank_program(ds, torch, S, seed, rank, world):
     cfg = S["cfg"]
     dt = getattr(torch, cfg["param_dtype"])
     full = [p.detach() for p in G.make_params(torch, S["shapes"], dt, tgen(*seed, "init"), scale=S["grad_scale"])]
+    if S.get("pdts"):
+        full = [f.to(getattr(torch, d)) for f, d in zip(full, S["pdts"])]
     comm_kw = dict(communication_dtype=getattr(ds.CommunicationDType, S["comm"]), num_trainers_per_group=S["G"], communicate_params=S["communicate_params"])
     if mode in ("hsdp", "hybrid"):
         mesh = init_device_mesh("cpu", (R, Sn), mesh_dim_names=("replicate", "shard"))
@@ -275,7 +292,7 @@ def rank_program(ds, torch, S, seed, rank, world):
     from ..distlib import collect_placement, live_buffer_geometry
 
     hist["placement"] = collect_placement(opt, params)
-    hist["buffers"] = live_buffer_geometry(opt) if mode in ("hsdp", "hybrid") else None
+    hist["buffers"] = live_buffer_geometry(opt, params) if mode in ("hsdp", "hybrid") else None
     hist["rrank"] = mesh.get_local_rank(0) if mode in ("hsdp", "hybrid") else 0
     return hist
 
@@ -289,7 +306,7 @@ def run_sharded(case, prop_id):
     S = make_setup(case)
     W = S["R"] * S["S"]
     counters = {"evals": 0, "bitwise_steps": 0, "tolerance_steps": 0, "replica_comparisons": 0, "collectives_logged": 0, "group_creations_logged": 0, "shards_compared": 0, "set_interleavings": []}
-    desc = {k: S[k] for k in ("mode", "R", "S", "G", "comm", "communicate_params", "cfg", "shapes", "ranges", "cut_kind", "presence_kind", "presence", "T")}
+    desc = {k: S[k] for k in ("pdts", "mode", "R", "S", "G", "comm", "communicate_params", "cfg", "shapes", "ranges", "cut_kind", "presence_kind", "presence", "T")}
     for il in range(case["interleavings"]):
         world = ranksim.World(W, interleave_seed=hash((tuple(map(str, case["seed"])), il)) & 0xFFFFFF)
         from ..common import KernelObserver
@@ -349,7 +366,7 @@ def run_sharded(case, prop_id):
                 elif sh[0] % S["S"]:
                     midrow = True
     nontrivial = midrow or empty or S["R"] >= 2
-    sig = [S["mode"], S["R"], S["S"], S["G"], S["comm"], S["communicate_params"], S["cut_kind"], midrow, empty, S["cfg"]["precond"]["kind"], (S["cfg"]["grafting"] or {}).get("type", "none"), S["presence_kind"], S["cfg"]["param_dtype"]]
+    sig = [S["mode"], S["R"], S["S"], S["G"], S["comm"], S["communicate_params"], S["cut_kind"], midrow, empty, S["cfg"]["precond"]["kind"], (S["cfg"]["grafting"] or {}).get("type", "none"), S["presence_kind"], S["cfg"]["param_dtype"], bool(S.get("pdts"))]
     counters["cases_with_empty_shard"] = int(empty)
     counters["cases_with_uneven_cut"] = int(midrow)
     return {"counters": counters, "sigs": [sig] if nontrivial else [], "sample": dict({k: desc[k] for k in ("mode", "R", "S", "G", "comm", "communicate_params", "shapes", "ranges", "cut_kind", "presence_kind", "T")}, ledger=ledger_excerpt)}
